@@ -354,7 +354,13 @@ def ruleLatentDOW(ts: datetime, dow: Time) -> Time:
 def ruleLatentDOY(ts: datetime, doy: Time) -> Time:
     dm = ts + relativedelta(month=doy.month, day=doy.day)
     if dm < ts:
-        dm += relativedelta(years=1)
+        dm = ts + relativedelta(years=1, month=doy.month, day=doy.day)
+    # relativedelta clips 29.2. to the 28th outside leap years: move on to the
+    # next year that does have this day (at most 8 years ahead)
+    for _ in range(8):
+        if dm.day == doy.day:
+            break
+        dm += relativedelta(years=1, day=doy.day)
     return Time(year=dm.year, month=dm.month, day=dm.day)
 
 
